@@ -299,6 +299,8 @@ Example txt_deposit_example :
   deposit txt_x_kind txt_y_kind txt_guard txt_index 32 5 31 = Some (0, 5, 31)%Z /\
   deposit txt_x_kind txt_y_kind txt_guard txt_index 32 (-1) 3 = None /\
   deposit txt_x_kind txt_y_kind txt_guard txt_index 32 32 3 = None.
+Proof. vm_compute. repeat split; reflexivity. Qed.
+
 (** 8. (family scaling) the same statement over the sizes GENERATED from main() on every run
     (Gen/Gen_ScalingZ.v, translate/scalingz2coq.py: symbolic execution of main()'s set-up code; a size is the
     expression that reaches the `spacing_bins` parameter of the wake field's constructor / the `nfreqs` parameter
